@@ -65,11 +65,14 @@ def operator_case(rep, rng, mesh, mi, with_model):
     case = {"mesh": mi, "sites": n, "edges": E, "pinned": int(len(fixed)), "potential_scale": Ascale}
     L1, L2 = ops1.psi_laplacian @ psi, ops2.psi_laplacian @ psi2
     pm = float(np.max(np.abs(psi)))
-    sc = float(np.max(np.abs(L1))) + 1e-6 * float(abs(ops1.psi_laplacian).max()) * pm + 1e-300      # rounding floor
+    # rounding floor: the link phases of the transformed potential (|theta| up to max|A.d| + max|dchi|) carry a relative
+    # rounding error of a few ulp each, which enters every entry (size up to M) times psi
+    ulps = 64 * np.finfo(float).eps * (1.0 + float(np.max(np.abs(dchi))) + float(np.max(np.abs(np.sum(A * d, axis=1)))))
+    sc = float(np.max(np.abs(L1))) + 1e9 * ulps * float(abs(ops1.psi_laplacian).max()) * pm + 1e-300
     if np.max(np.abs(L2 - g * L1)) > 1e-9 * sc:
         rep.violation("covariant Laplacian does not transform covariantly", case)
     G1, G2 = ops1.psi_gradient @ psi, ops2.psi_gradient @ psi2
-    if np.max(np.abs(G2 - g[em.edges[:, 0]] * G1)) > 1e-9 * (float(np.max(np.abs(G1))) + 1e-6 * float(abs(ops1.psi_gradient).max()) * pm + 1e-300):
+    if np.max(np.abs(G2 - g[em.edges[:, 0]] * G1)) > 1e-9 * (float(np.max(np.abs(G1))) + 1e9 * ulps * float(abs(ops1.psi_gradient).max()) * pm + 1e-300):
         rep.violation("covariant gradient does not transform covariantly", case)
     J1, J2 = ops1.get_supercurrent(psi), ops2.get_supercurrent(psi2)
     # rounding: J is the imaginary part of a difference of O(|psi|^2) numbers divided by the edge length
